@@ -630,11 +630,12 @@ func evalAggregateFunction(ctx context.Context, scope *ReferenceScope, expr pars
 		}
 
 		listExpr := expr.Args[0]
+		_, isAllColumns := listExpr.(parser.AllColumns)
 		if _, ok := listExpr.(parser.AllColumns); ok {
 			listExpr = parser.NewIntegerValue(1)
 		}
 
-		if uname == "COUNT" {
+		if uname == "COUNT" && (isAllColumns || !expr.IsDistinct()) {
 			if pt, ok := listExpr.(parser.PrimitiveType); ok {
 				v := pt.Value
 				if !value.IsNull(v) && !value.IsUnknown(v) && scope.Records[0].IsInRange() {
